@@ -252,6 +252,7 @@ func CheckC19(c *Ctx) {
 	c.errorsLookedAt("reader/error-dropped", map[string]string{}, "asset", "helper")
 	c.errorFallThrough("reader/error-fallthrough", "asset", "helper")
 	c.jsonArrayOpen("reader/json-array", 2, "asset", "helper")
+	c.rowsClosed("reader/rows-close", 2, "asset")
 	run.Floor("error_tests", 30)
 	if ok := panicSourcesSelfTest(); !ok {
 		run.Break("the panic-source detector no longer finds its built-in example")
